@@ -238,11 +238,24 @@ WordClauses ==
                              ELSE Report("VIOL", "C03", 0, "equal-words", ws[i])
 
 DistinctKeys == Cardinality({Rec[i].key : i \in 1..N})
+Count(P(_)) == Cardinality({i \in 1..N : P(Rec[i])})
+Max(S) == CHOOSE x \in S : \A y \in S : y <= x
 
 TraceAccepted ==
     /\ PairClauses
     /\ WordClauses
     /\ Stat("trace", [events |-> N, diameter |-> TLCGet("stats").diameter,
-                       distinct_keys |-> DistinctKeys])
+                       distinct_keys |-> DistinctKeys,
+                       makes |-> Count(LAMBDA e : e.op = "make"),
+                       nulls |-> Count(LAMBDA e : e.op = "null"),
+                       undos |-> Count(LAMBDA e : e.op \in {"undo", "undonull"}),
+                       loads |-> Count(LAMBDA e : e.op = "load"),
+                       reps |-> Count(LAMBDA e : e.rep),
+                       fifties |-> Count(LAMBDA e : e.fifty),
+                       clock100 |-> Count(LAMBDA e : e.hmc >= 100),
+                       insuf |-> Count(LAMBDA e : e.insuf),
+                       checks |-> Count(LAMBDA e : e.chk),
+                       specials |-> Count(LAMBDA e : e.op = "make" /\ (e.mv >= 65536 \/ (e.mv \div 4096) % 8 # 0)),
+                       maxdepth |-> Max({Rec[i].hl : i \in 1..N})])
     /\ TLCGet("stats").diameter = N + 1
 =============================================================================
